@@ -43,5 +43,11 @@ Next == ChainStep \/ TablesStep
 Spec == Init /\ [][Next]_vars /\ WF_vars(Next)
 
 Termination == <>(phase \in {"returned", "raised"})
+\* when the discovery returns it has visited exactly the tables reachable from the first one (every listed table, each once)
+RECURSIVE ReachN(_, _)
+ReachN(S, k) == IF k = 0 THEN S ELSE ReachN(S \cup UNION {refs[t] : t \in S}, k - 1)
+DiscoversAll == (kind = "tables" /\ phase = "returned" /\ Guarded) =>
+                   /\ {work[i] : i \in 1..Len(work)} = ReachN({1}, N)
+                   /\ \A i, j \in 1..Len(work) : i # j => work[i] # work[j]
 Bounded == phase # "unbounded" /\ Cardinality(seen) <= N
 =============================================================================
